@@ -233,6 +233,7 @@ def monitor_c18(rep, n, maxops=8, pid="C18"):
         install_exact()
         G.set_partition(c["adds"], c["nons"])
         try:
+            C.arm(30)
             R = StarRun(c)
             part = R.part
             for i, op in enumerate(c["ops"]):
@@ -308,6 +309,9 @@ def monitor_c18(rep, n, maxops=8, pid="C18"):
                         rep.violation("counterexample", f"{pid} monitor [star]: {msgtxt}",
                                       {"family": "star", "case": K.case_json(c2), "monitor_message": msgtxt}, True)
             rep.add_eval(("mon_star", str(c)), nontrivial=(len(c["outs"]) > 1 or len(c["ins"]) > 1))
+        except C.TooSlow:
+            pass          # exact rationals exploded: case dropped
         finally:
+            C.disarm()
             G.reset_partition()
     rep.monitor[f"{pid}_star"] = {"cases": n, "violations": viol, **stats}
